@@ -91,6 +91,16 @@ func (e *Engine) Solve(vc *FnVC, dir string, perMs int, solvers []string, agree 
 	if len(vc.obls) == 0 {
 		return res
 	}
+	if vc.spec != nil && vc.spec.Prefer != "" {
+		// the contract names the solver that decides this function's obligations robustly (e.g. cvc5 for nested quantifiers)
+		ord := []string{vc.spec.Prefer}
+		for _, s := range solvers {
+			if s != vc.spec.Prefer {
+				ord = append(ord, s)
+			}
+		}
+		solvers = ord
+	}
 	script := vc.Script(perMs, false)
 	file := filepath.Join(dir, sanitize(vc.key)+".smt2")
 	z3script := strings.Replace(strings.Replace(script, ";;SMOKE-BEGIN", "(set-option :timeout 1500)", 1), ";;SMOKE-END", fmt.Sprintf("(set-option :timeout %d)", perMs), 1)
